@@ -249,11 +249,8 @@ def run(ctx):
                         bad = f"element 0 after the forward pass is {fw[0]}, table[{v}] = {data[v]}"
                 else:
                     size = want[3]
-                    if size == 1:
-                        if got.startswith("panic"):
-                            known_size1.append({"line": lines[i], "implementation": got})
-                        elif got != f"ok {data[0]}":
-                            bad = "wrong element"
+                    if size == 1 and got.startswith("panic"):
+                        known_size1.append({"line": lines[i], "implementation": got})
                     elif v < len(data) and got != f"ok {data[v]}":
                         bad = f"returned {got}, table[{v}] = {data[v]}"
                 if bad:
